@@ -91,6 +91,9 @@ def enc_extent(lay: CodecLayout, pairs) -> Optional[Affine]:
 def check_roundtrip(lx: LayoutExtractor, rep, prefix='C01'):
     R = lambda r: '%s.%s' % (prefix, r)
     classes = lx.concrete_classes()
+    w_ = lx.repo.table_writers('pdu', 'SUB_ITEM_TYPES')
+    rep.check(not w_, R('O6'), 'pdu:SUB_ITEM_TYPES:constant-after-import', 'pynetdicom2/pdu.py',
+              'no function re-binds or mutates the sub-item dispatch table', '; '.join(w_))
     reachable = set()
     type_of = {}
     for c in classes:
